@@ -70,12 +70,12 @@ func (d *headDB) commit(op *heightOp, apply func() error) error {
 
 // --- reads go straight to the inner store
 
-func (d *headDB) Has(key []byte) (bool, error)                 { return d.inner.Has(key) }
-func (d *headDB) Get(key []byte, cb func([]byte) error) error   { return d.inner.Get(key, cb) }
-func (d *headDB) NewSnapshot() db.Snapshot                      { return d.inner.NewSnapshot() }
-func (d *headDB) Impl() any                                     { return d.inner.Impl() }
-func (d *headDB) Path() string                                  { return d.inner.Path() }
-func (d *headDB) Close() error                                  { return d.inner.Close() }
+func (d *headDB) Has(key []byte) (bool, error)                   { return d.inner.Has(key) }
+func (d *headDB) Get(key []byte, cb func([]byte) error) error    { return d.inner.Get(key, cb) }
+func (d *headDB) NewSnapshot() db.Snapshot                       { return d.inner.NewSnapshot() }
+func (d *headDB) Impl() any                                      { return d.inner.Impl() }
+func (d *headDB) Path() string                                   { return d.inner.Path() }
+func (d *headDB) Close() error                                   { return d.inner.Close() }
 func (d *headDB) WithListener(db.EventListener) db.KeyValueStore { return d }
 func (d *headDB) NewIterator(prefix []byte, withUpperBound bool) (db.Iterator, error) {
 	return d.inner.NewIterator(prefix, withUpperBound)
@@ -165,7 +165,7 @@ type headIBatch struct {
 	ib db.IndexedBatch
 }
 
-func (b *headIBatch) Has(key []byte) (bool, error)               { return b.ib.Has(key) }
+func (b *headIBatch) Has(key []byte) (bool, error)                { return b.ib.Has(key) }
 func (b *headIBatch) Get(key []byte, cb func([]byte) error) error { return b.ib.Get(key, cb) }
 func (b *headIBatch) NewIterator(prefix []byte, withUpperBound bool) (db.Iterator, error) {
 	return b.ib.NewIterator(prefix, withUpperBound)
